@@ -488,3 +488,624 @@ Proof.
       unfold slice at 1. cbn [skipn app]. unfold slice. rewrite firstn_firstn. cbn [Nat.min].
       rewrite bytes_eqb_refl. reflexivity.
 Qed.
+
+(* ========================================================================================== processing the receive queue *)
+(* facts about the class that was selected *)
+Lemma kind_facts phy enc ver o z k : ctrl_kind_b phy enc ver o z = k ->
+  match k with
+  | KVersion => ver = false
+  | KUnknownRsp => o = 7
+  | KRejectInd => o = 13
+  | KRejectExt => o = 17
+  | KCpr => z = 24
+  | _ => True
+  end.
+Proof.
+  unfold ctrl_kind_b. intros <-.
+  repeat match goal with |- context [if ?b then _ else _] => let E := fresh "E" in destruct b eqn:E end; try exact I;
+    change GenLL.LL_UNKNOWN_RSP with 7 in *; change GenLL.LL_REJECT_IND with 13 in *; change GenLL.LL_REJECT_EXT_IND with 17 in *;
+    try lia; destruct ver; try reflexivity; lia.
+Qed.
+
+Definition pr_same (p q : procs) : Prop :=
+  cpr_pending q = cpr_pending p /\ phy_pending q = phy_pending p /\ ver_pending q = ver_pending p /\ ver_received q = ver_received p
+  /\ prop_min q = prop_min p /\ prop_max q = prop_max p /\ prop_lat q = prop_lat p /\ prop_to q = prop_to p.
+
+Lemma handle_reject_form c s o b : o = 7 \/ o = 13 \/ o = 17 ->
+  exists r prx,
+    handle_reject c s o b =
+      set_ring (set_pr (set_used_features (set_proc_timeout s (if (o =? 13) || (byte b 1 =? 15) then 0 else proc_timeout s))
+                                          (if (o =? 7) && (byte b 1 =? 15) then N.land (used_features s) (65535 - cpr_feature) else used_features s))
+                       prx) r
+    /\ pr_same (pr s) prx.
+Proof.
+  intros Ho. unfold handle_reject, clear_cpr_feature, cpr_feature.
+  change GenLL.LL_UNKNOWN_RSP with 7. change GenLL.LL_REJECT_IND with 13. change GenLL.LL_REJECT_EXT_IND with 17.
+  change GenLL.LL_CONNECTION_PARAM_REQ with 15.
+  destruct Ho as [-> | [-> | ->]]; cbn [N.eqb Pos.eqb negb orb andb];
+    destruct (byte b 1 =? 15); cbn [negb orb andb];
+    try change (pr (set_proc_timeout s 0)) with (pr s);
+    try destruct (cpr_running (pr s) && cpr_sig (pr s)) eqn:ER;
+    match goal with |- context [push_event c ?X ?e] => destruct (push_event_form c X e) as [r ->] end;
+    exists r;
+    first [ exists (set_cpr_running (set_cpr_sig (pr s) false) false); split; [reflexivity | unfold pr_same; cbn; repeat split; reflexivity]
+          | exists (pr s); split; [reflexivity | unfold pr_same; repeat split; reflexivity] ].
+Qed.
+
+Definition Post (c : cfg) (s : lstate_t) (m : mon27) (acc : list expect)
+                (s' : lstate_t) (it : list item) (res : ll_result) (m' : mon27) (acc' : list expect) (p : pres) : Prop :=
+  match p with
+  | PStop => True
+  | PClosed => res = DoDisconnect
+  | PGo => res = GoAhead /\ it = [] /\ PR c s' m' /\ sframe s s' /\ mframe m m'
+           /\ (ver_received (pr s) = true -> ver_received (pr s') = true)
+           /\ (proc_timeout s' = proc_timeout s \/ proc_timeout s' = 0)
+           /\ exists new accn, unaired s' = unaired s ++ new /\ acc' = acc ++ accn /\ Matches c accn (ctrl new) /\ vok s accn
+                               /\ (nver accn = 1%nat -> ver_received (pr s') = true)
+  end.
+
+Lemma Post_here c s m acc : PR c s m -> Post c s m acc s [] GoAhead m acc PGo.
+Proof.
+  intros H. cbn. split; [reflexivity|]. split; [reflexivity|]. split; [exact H|]. split; [apply sframe_refl|]. split; [apply mframe_refl|].
+  split; [auto|]. split; [left; reflexivity|].
+  exists [], []. rewrite !app_nil_r. split; [reflexivity|]. split; [reflexivity|]. split; [constructor|].
+  unfold vok. cbn. split; [split; [lia|discriminate]|discriminate].
+Qed.
+
+(* one PDU was processed (state s2, monitor m2, expectations ek for the PDUs newk), the rest is processed from there *)
+Lemma Post_compose c s m acc s2 m2 ek newk s' it res m' acc' p :
+  sframe s s2 -> mframe m m2 -> unaired s2 = unaired s ++ newk -> Matches c ek (ctrl newk) ->
+  ((nver ek = 0%nat /\ ver_received (pr s2) = ver_received (pr s)) \/ (nver ek = 1%nat /\ ver_received (pr s) = false /\ ver_received (pr s2) = true)) ->
+  (proc_timeout s2 = proc_timeout s \/ proc_timeout s2 = 0) ->
+  Post c s2 m2 (acc ++ ek) s' it res m' acc' p -> Post c s m acc s' it res m' acc' p.
+Proof.
+  intros F1 F2 U M V T H. destruct p; cbn in *; auto.
+  destruct H as (H1 & H2 & H3 & H4 & H5 & Hmono & Ht & new & accn & H6 & H7 & H8 & (H9 & H10) & H11).
+  split; [exact H1|]. split; [exact H2|]. split; [exact H3|]. split; [eapply sframe_trans; eauto|]. split; [eapply mframe_trans; eauto|].
+  split; [|split].
+  - intros E. apply Hmono. destruct V as [[V1 V2]|(V1 & V2 & V3)]; congruence.
+  - destruct Ht as [Ht|Ht]; [|right; exact Ht]. destruct T as [T|T]; [left|right]; congruence.
+  - exists (newk ++ new), (ek ++ accn). rewrite H6, U, H7, !app_assoc. split; [reflexivity|]. split; [reflexivity|]. unfold vok in *. split; [|split; [split|]].
+    + unfold Matches. rewrite ctrl_app. apply Forall2_app; assumption.
+    + rewrite nver_app. destruct V as [[V1 V2]|(V1 & V2 & V3)]; [lia|].
+      destruct (Nat.eq_dec (nver accn) 1) as [E|E]; [specialize (H10 E); congruence|lia].
+    + rewrite nver_app. intros E. destruct V as [[V1 V2]|(V1 & V2 & V3)]; [|exact V2].
+      rewrite <- V2. apply H10. lia.
+    + rewrite nver_app. intros E. destruct V as [[V1 V2]|(V1 & V2 & V3)]; [apply H11; lia|apply Hmono; exact V3].
+Qed.
+
+Definition popS (s : lstate_t) (rest : list pdu) : lstate_t := upd_bf s (fun b => set_rxq b rest).
+
+Lemma after_nocommit sX rest :
+  stopped (bf sX) = false -> WFb sX ->
+  let s2 := popS sX rest in
+  s2 = set_bf sX (bf s2) /\ rxq (bf s2) = rest /\ txa s2 = txa sX /\ stopped (bf s2) = false /\ WFb s2 /\ unaired s2 = unaired sX.
+Proof. intros St W. cbn zeta. unfold popS. repeat split; try reflexivity; assumption. Qed.
+
+Lemma after_commit sX p rest :
+  stopped (bf sX) = false -> WFb sX ->
+  let s2 := popS (commit sX p) rest in
+  s2 = set_bf sX (bf s2) /\ rxq (bf s2) = rest /\ txa s2 = txa sX /\ stopped (bf s2) = false /\ WFb s2 /\ unaired s2 = unaired sX ++ [p].
+Proof.
+  intros St W. cbn zeta. destruct (LLProofsC28Air.unaired_commit sX p W St) as (U & W2 & S2 & T2).
+  unfold popS. rewrite (commit_eq sX p St) in *. repeat split; try reflexivity; assumption.
+Qed.
+
+Lemma rx_ok_tail p l : rx_ok (p :: l) -> rx_ok l.
+Proof. intros H. inversion H; assumption. Qed.
+Lemma rx_ok_head llid body l : rx_ok ((llid, body) :: l) -> (llid = 2 \/ llid = 3) /\ body <> [] /\ bytes_ok body.
+Proof. intros H. inversion H as [|? ? [H1 [H2 H3]] ?]; subst. cbn [fst snd] in *. repeat split; auto. lia. Qed.
+
+Lemma spec_is_ctrl c ver body :
+  bytes_ok body -> spec_kind (c_phy c) (c_enc c) ver (byte body 0) (N.of_nat (length body))
+                   = ctrl_kind_b (c_phy c) (c_enc c) ver (byte body 0) (N.of_nat (length body)).
+Proof. intros B. symmetry. apply (ctrl_kind_is_spec c). apply LLProofsC21.byte_lt. exact B. Qed.
+
+Section Sim.
+Variable c : cfg.
+Hypothesis Hc : cfg_ok27 c = true.
+
+Lemma process_sim : forall fuel s m cbs acc s' it res m' acc' p,
+  PR c s m ->
+  handle_received_data fuel c s = (s', it, res) -> process27 fuel c m cbs acc = (m', acc', p) ->
+  Post c s m acc s' it res m' acc' p.
+Proof.
+  induction fuel as [|fuel IH]; intros s m cbs acc s' it res m' acc' p HPR Hs Hp.
+  { cbn in Hs, Hp. inversion Hs; inversion Hp; subst. apply Post_here. exact HPR. }
+  pose proof HPR as (P1 & P2 & P3 & P4 & P5 & P6 & P7 & P8 & P9 & P10 & P11 & P12).
+  cbn [handle_received_data] in Hs. cbn [process27] in Hp.
+  rewrite P8 in Hs. rewrite P1 in Hp.
+  destruct (rxq (bf s)) as [|[llid body] rest] eqn:ERX.
+  { inversion Hs; inversion Hp; subst. apply Post_here. exact HPR. }
+  destruct (rx_ok_head _ _ _ P12) as (Hll & Hne & Hbo). pose proof (rx_ok_tail _ _ P12) as Hrest.
+  change GenLL.ll_control_pdu_code with 3 in Hs. change GenLL.lld_data_pdu_code with 2 in Hs.
+  unfold tx_buffer_available in Hs. fold (txa s) in Hs. rewrite <- P2 in Hs.
+  destruct Hll as [-> | ->]; cbn [N.eqb Pos.eqb] in Hs, Hp.
+  - (* L2CAP *)
+    rewrite P9 in Hs. cbn [negb andb] in Hs.
+    assert (EL : match (if c_enc c then l2cap_reply_enc (is_enc (sc s)) body else l2cap_reply body) with L2Drop => true | L2Reply _ => false end
+                 = match l2cap_reply body with L2Drop => true | L2Reply _ => false end)
+      by (destruct (c_enc c); [apply l2class_enc|reflexivity]).
+    destruct (after_nocommit s rest P10 P11) as (A1 & A2 & A3 & A4 & A5 & A6).
+    destruct (if c_enc c then _ else _) as [|r] eqn:EM; destruct (l2cap_reply body) as [|r'] eqn:EM'; try discriminate.
+    + eapply Post_compose with (s2 := popS s rest) (m2 := set_m_rx m rest) (ek := []) (newk := []);
+        [unfold sframe; repeat split; reflexivity | unfold mframe; repeat split; reflexivity | rewrite app_nil_r; exact A6 | constructor
+        | left; split; reflexivity | left; reflexivity | ].
+      rewrite app_nil_r. eapply IH; [|exact Hs|exact Hp].
+      unfold PR. repeat split; try assumption; try reflexivity; try (rewrite ?A3; cbn; congruence).
+    + destruct (m_txa m) eqn:ET.
+      * destruct r as [f|].
+        -- destruct (after_commit s (2, f) rest P10 P11) as (B1 & B2 & B3 & B4 & B5 & B6).
+           eapply Post_compose with (s2 := popS (commit s (2, f)) rest) (m2 := set_m_rx m rest) (ek := []) (newk := [(2, f)]);
+             [rewrite B1; unfold sframe; repeat split; reflexivity | unfold mframe; repeat split; reflexivity | exact B6 | constructor
+             | left; split; [reflexivity|rewrite B1; reflexivity] | left; rewrite B1; reflexivity | ].
+           rewrite app_nil_r. eapply IH; [|exact Hs|exact Hp].
+           unfold PR. rewrite B1 at 3 4 5 6 7 8 9. cbn [pr set_bf used_features proc_timeout deferred st].
+           repeat split; try assumption; try reflexivity; try congruence. rewrite B3. cbn. congruence.
+        -- eapply Post_compose with (s2 := popS s rest) (m2 := set_m_rx m rest) (ek := []) (newk := []);
+             [unfold sframe; repeat split; reflexivity | unfold mframe; repeat split; reflexivity | rewrite app_nil_r; exact A6 | constructor
+             | left; split; reflexivity | left; reflexivity | ].
+           rewrite app_nil_r. eapply IH; [|exact Hs|exact Hp].
+           unfold PR. repeat split; try assumption; try reflexivity; try (rewrite ?A3; cbn; congruence).
+      * inversion Hs; inversion Hp; subst. apply Post_here. exact HPR.
+  - (* control PDU *)
+    destruct (m_txa m) eqn:ET; cbn [negb] in Hp; [|inversion Hs; inversion Hp; subst; apply Post_here; exact HPR].
+    unfold handle_ll_control in Hs. rewrite (opc_nonempty body Hne) in Hs. unfold ctrl_kind in Hs.
+    rewrite (spec_is_ctrl c _ body Hbo), P3 in Hp.
+    pose proof (kind_facts (c_phy c) (c_enc c) (ver_received (pr s)) (byte body 0) (N.of_nat (length body)) _ eq_refl) as KF.
+    destruct (ctrl_kind_b (c_phy c) (c_enc c) (ver_received (pr s)) (byte body 0) (N.of_nat (length body))) eqn:K;
+      try (inversion Hp; subst; exact I).
+    + (* KTerminate *) inversion Hp; subst. cbn in Hs. inversion Hs. reflexivity.
+    + (* KVersion *)
+      cbn beta iota zeta in Hs. unfold commit_ctrl in Hs. change GenLL.ll_control_pdu_code with 3 in Hs.
+      rewrite (P4 KF) in Hp.
+      set (s2 := if byte body 1 <=? GenLL.LL_VERSION_40 then clear_cpr_feature (set_proc_timeout s 0) else set_proc_timeout s 0) in *.
+      destruct (push_event_form c s2 (EvVersion (byte body 1) (rd16 body 2) (rd16 body 4))) as [rr Er]. rewrite Er in Hs.
+      set (sX := upd_pr (set_ring s2 rr) (fun p => set_ver_received p true)) in *.
+      fold (popS (commit sX (3, version_ind_pdu)) rest) in Hs.
+      destruct (handle_received_data fuel c (popS (commit sX (3, version_ind_pdu)) rest)) as [[s3 it3] r3] eqn:E3. inversion Hs; subst s' it res; clear Hs.
+      assert (St : stopped (bf sX) = false) by (subst sX s2; destruct (_ <=? _); exact P10).
+      assert (Wx : WFb sX) by (subst sX s2; destruct (_ <=? _); exact P11).
+      destruct (after_commit sX (3, version_ind_pdu) rest St Wx) as (B1 & B2 & B3 & B4 & B5 & B6).
+      match type of Hp with process27 fuel c (set_m_rx ?M rest) cbs ?A = _ =>
+        eapply Post_compose with (s2 := popS (commit sX (3, version_ind_pdu)) rest) (m2 := set_m_rx M rest)
+                                 (ek := [EExact [12; GenLL.LL_VERSION_NR; GenLL.company_identifier mod 256; GenLL.company_identifier / 256; 0; 0]])
+                                 (newk := [(3, version_ind_pdu)]) end.
+      * rewrite B1. subst sX s2. unfold sframe. destruct (_ <=? _); repeat split; reflexivity.
+      * unfold mframe. destruct (_ <=? _); repeat split; reflexivity.
+      * rewrite B6. subst sX s2. destruct (_ <=? _); reflexivity.
+      * constructor; [reflexivity|constructor].
+      * right. split; [reflexivity|]. split; [exact KF|]. rewrite B1. reflexivity.
+      * right. rewrite B1. subst sX s2. destruct (_ <=? _); reflexivity.
+      * eapply IH; [|exact E3|exact Hp].
+        unfold PR. rewrite B1 at 3 4 5 6 7 8 9. rewrite B3.
+        subst sX s2. unfold cpr_feature, clear_cpr_feature. destruct (_ <=? _);
+          cbn [pr set_bf upd_pr set_pr set_ring used_features proc_timeout deferred st set_used_features set_proc_timeout ver_received set_ver_received
+               m_rx m_txa m_ver_rcv m_ver_sent m_used m_timer m_owner set_m_rx set_m_ver_rcv set_m_used set_m_timer];
+          repeat split; try assumption; try reflexivity; try congruence; try discriminate; try (unfold txa in *; cbn [bf upd_pr set_pr set_ring set_used_features set_proc_timeout]; congruence).
+    + (* KPing *)
+      cbn beta iota zeta in Hs. unfold commit_ctrl in Hs. change GenLL.ll_control_pdu_code with 3 in Hs. change GenLL.LL_PING_RSP with 19 in Hs.
+      fold (popS (commit s (3, [19])) rest) in Hs.
+      destruct (handle_received_data fuel c (popS (commit s (3, [19])) rest)) as [[s3 it3] r3] eqn:E3. inversion Hs; subst; clear Hs.
+      destruct (after_commit s (3, [19]) rest P10 P11) as (B1 & B2 & B3 & B4 & B5 & B6).
+      eapply Post_compose with (s2 := popS (commit s (3, [19])) rest) (m2 := set_m_rx m rest) (ek := [EExact [19]]) (newk := [(3, [19])]);
+        [rewrite B1; unfold sframe; repeat split; reflexivity | unfold mframe; repeat split; reflexivity | exact B6
+        | repeat constructor | left; split; [reflexivity|rewrite B1; reflexivity] | left; rewrite B1; reflexivity | ].
+      eapply IH; [|exact E3|exact Hp].
+      unfold PR. rewrite B1 at 3 4 5 6 7 8 9. cbn [pr set_bf used_features proc_timeout deferred st].
+      repeat split; try assumption; try reflexivity; try congruence. rewrite B3. cbn. congruence.
+    + (* KFeature *)
+      cbn beta iota zeta in Hs. unfold commit_ctrl in Hs. change GenLL.ll_control_pdu_code with 3 in Hs. change GenLL.LL_FEATURE_RSP with 9 in Hs.
+      set (u := N.land (used_features s) (rd16 body 1)) in *.
+      destruct (push_event_form c (set_used_features s u) (EvFeatures (slice body 1 8))) as [rr Er]. rewrite Er in Hs.
+      set (sX := set_ring (set_used_features s u) rr) in *.
+      set (bb := [9; lo8 (used_features (set_used_features s u)); hi8 (supported_features c); 0; 0; 0; 0; 0; 0]) in *.
+      fold (popS (commit sX (3, bb)) rest) in Hs.
+      destruct (handle_received_data fuel c (popS (commit sX (3, bb)) rest)) as [[s3 it3] r3] eqn:E3. inversion Hs; subst s' it res; clear Hs.
+      destruct (after_commit sX (3, bb) rest P10 P11) as (B1 & B2 & B3 & B4 & B5 & B6).
+      rewrite P5 in Hp. fold u in Hp.
+      eapply Post_compose with (s2 := popS (commit sX (3, bb)) rest) (m2 := set_m_rx (set_m_used m u) rest) (ek := [EFeature (u mod 256)]) (newk := [(3, bb)]);
+        [rewrite B1; unfold sframe; repeat split; reflexivity | unfold mframe; repeat split; reflexivity | exact B6
+        | constructor; [apply bytes_eqb_refl|constructor] | left; split; [reflexivity|rewrite B1; reflexivity] | left; rewrite B1; reflexivity | ].
+      eapply IH; [|exact E3|exact Hp].
+      unfold PR. rewrite B1 at 3 4 5 6 7 8 9. cbn [pr set_bf used_features proc_timeout deferred st sX set_ring set_used_features].
+      repeat split; try assumption; try reflexivity; try congruence. rewrite B3. change (txa sX) with (txa s). cbn. congruence.
+    + (* KUnknownRsp *)
+      cbn beta iota zeta in Hs.
+      destruct (handle_reject_form c s (byte body 0) body) as (rr & prx & Ef & Ps); [rewrite KF; auto|]. rewrite Ef in Hs. clear Ef.
+      rewrite KF in Hs, Hp. rewrite P7, andb_false_r, orb_false_r in Hp. cbn [N.eqb Pos.eqb orb andb] in Hs, Hp.
+      destruct Ps as (Q1 & Q2 & Q3 & Q4 & Q5 & Q6 & Q7 & Q8).
+      match type of Hs with context [set_ring ?X rr] => set (sX := set_ring X rr) in * end.
+      fold (popS sX rest) in Hs.
+      destruct (handle_received_data fuel c (popS sX rest)) as [[s3 it3] r3] eqn:E3. inversion Hs; subst s' it res; clear Hs.
+      destruct (after_nocommit sX rest P10 P11) as (A1 & A2 & A3 & A4 & A5 & A6).
+      match type of Hp with process27 fuel c (set_m_rx ?M rest) cbs ?A = _ =>
+        eapply Post_compose with (s2 := popS sX rest) (m2 := set_m_rx M rest) (ek := []) (newk := []) end.
+      * subst sX. unfold sframe. cbn. repeat split; try reflexivity; assumption.
+      * unfold mframe. destruct (byte body 1 =? 15); repeat split; reflexivity.
+      * rewrite app_nil_r. exact A6.
+      * constructor.
+      * left. split; [reflexivity|]. subst sX. cbn. exact Q4.
+      * subst sX. unfold popS. cbn. destruct (byte body 1 =? 15); auto.
+      * rewrite app_nil_r. eapply IH; [|exact E3|exact Hp].
+        unfold PR. subst sX. unfold popS, cpr_feature. destruct (byte body 1 =? 15);
+          cbn [pr bf upd_bf set_bf set_pr set_ring used_features proc_timeout deferred st set_used_features set_proc_timeout rxq set_rxq stopped
+               m_rx m_txa m_ver_rcv m_ver_sent m_used m_timer m_owner set_m_rx set_m_ver_rcv set_m_used set_m_timer];
+          repeat split; try assumption; try reflexivity; try congruence; try (unfold txa in *; cbn [bf upd_bf set_bf set_pr set_ring set_used_features set_proc_timeout tx_avail set_rxq]; congruence); try (rewrite Q4; exact P4).
+    + (* KRejectInd *)
+      cbn beta iota zeta in Hs.
+      destruct (handle_reject_form c s (byte body 0) body) as (rr & prx & Ef & Ps); [rewrite KF; auto|]. rewrite Ef in Hs. clear Ef.
+      rewrite KF in Hs, Hp. rewrite P7, andb_false_r, orb_false_r in Hp. cbn [N.eqb Pos.eqb orb andb] in Hs, Hp.
+      destruct Ps as (Q1 & Q2 & Q3 & Q4 & Q5 & Q6 & Q7 & Q8).
+      match type of Hs with context [set_ring ?X rr] => set (sX := set_ring X rr) in * end.
+      fold (popS sX rest) in Hs.
+      destruct (handle_received_data fuel c (popS sX rest)) as [[s3 it3] r3] eqn:E3. inversion Hs; subst s' it res; clear Hs.
+      destruct (after_nocommit sX rest P10 P11) as (A1 & A2 & A3 & A4 & A5 & A6).
+      match type of Hp with process27 fuel c (set_m_rx ?M rest) cbs ?A = _ =>
+        eapply Post_compose with (s2 := popS sX rest) (m2 := set_m_rx M rest) (ek := []) (newk := []) end.
+      * subst sX. unfold sframe. cbn. repeat split; try reflexivity; assumption.
+      * unfold mframe. destruct (byte body 1 =? 15); repeat split; reflexivity.
+      * rewrite app_nil_r. exact A6.
+      * constructor.
+      * left. split; [reflexivity|]. subst sX. cbn. exact Q4.
+      * subst sX. unfold popS. cbn. destruct (byte body 1 =? 15); auto.
+      * rewrite app_nil_r. eapply IH; [|exact E3|exact Hp].
+        unfold PR. subst sX. unfold popS, cpr_feature. destruct (byte body 1 =? 15);
+          cbn [pr bf upd_bf set_bf set_pr set_ring used_features proc_timeout deferred st set_used_features set_proc_timeout rxq set_rxq stopped
+               m_rx m_txa m_ver_rcv m_ver_sent m_used m_timer m_owner set_m_rx set_m_ver_rcv set_m_used set_m_timer];
+          repeat split; try assumption; try reflexivity; try congruence; try (unfold txa in *; cbn [bf upd_bf set_bf set_pr set_ring set_used_features set_proc_timeout tx_avail set_rxq]; congruence); try (rewrite Q4; exact P4).
+    + (* KRejectExt *)
+      cbn beta iota zeta in Hs.
+      destruct (handle_reject_form c s (byte body 0) body) as (rr & prx & Ef & Ps); [rewrite KF; auto|]. rewrite Ef in Hs. clear Ef.
+      rewrite KF in Hs, Hp. rewrite P7, andb_false_r, orb_false_r in Hp. cbn [N.eqb Pos.eqb orb andb] in Hs, Hp.
+      destruct Ps as (Q1 & Q2 & Q3 & Q4 & Q5 & Q6 & Q7 & Q8).
+      match type of Hs with context [set_ring ?X rr] => set (sX := set_ring X rr) in * end.
+      fold (popS sX rest) in Hs.
+      destruct (handle_received_data fuel c (popS sX rest)) as [[s3 it3] r3] eqn:E3. inversion Hs; subst s' it res; clear Hs.
+      destruct (after_nocommit sX rest P10 P11) as (A1 & A2 & A3 & A4 & A5 & A6).
+      match type of Hp with process27 fuel c (set_m_rx ?M rest) cbs ?A = _ =>
+        eapply Post_compose with (s2 := popS sX rest) (m2 := set_m_rx M rest) (ek := []) (newk := []) end.
+      * subst sX. unfold sframe. cbn. repeat split; try reflexivity; assumption.
+      * unfold mframe. destruct (byte body 1 =? 15); repeat split; reflexivity.
+      * rewrite app_nil_r. exact A6.
+      * constructor.
+      * left. split; [reflexivity|]. subst sX. cbn. exact Q4.
+      * subst sX. unfold popS. cbn. destruct (byte body 1 =? 15); auto.
+      * rewrite app_nil_r. eapply IH; [|exact E3|exact Hp].
+        unfold PR. subst sX. unfold popS, cpr_feature. destruct (byte body 1 =? 15);
+          cbn [pr bf upd_bf set_bf set_pr set_ring used_features proc_timeout deferred st set_used_features set_proc_timeout rxq set_rxq stopped
+               m_rx m_txa m_ver_rcv m_ver_sent m_used m_timer m_owner set_m_rx set_m_ver_rcv set_m_used set_m_timer];
+          repeat split; try assumption; try reflexivity; try congruence; try (unfold txa in *; cbn [bf upd_bf set_bf set_pr set_ring set_used_features set_proc_timeout tx_avail set_rxq]; congruence); try (rewrite Q4; exact P4).
+    + (* KCpr *)
+      cbn beta iota zeta in Hs.
+      destruct (cpr_answer c s body Hc) as (r & Er & Ok); [lia|]. rewrite Er in Hs.
+      unfold commit_ctrl in Hs. change GenLL.ll_control_pdu_code with 3 in Hs.
+      fold (popS (commit s (3, r)) rest) in Hs.
+      destruct (handle_received_data fuel c (popS (commit s (3, r)) rest)) as [[s3 it3] r3] eqn:E3. inversion Hs; subst s' it res; clear Hs.
+      assert (Hp' : process27 fuel c (set_m_rx m rest) cbs (acc ++ [ECpr body]) = (m', acc', p))
+        by (unfold cfg_ok27 in Hc; destruct (c_cpr c); [exact Hp|exact Hp|discriminate]).
+      destruct (after_commit s (3, r) rest P10 P11) as (B1 & B2 & B3 & B4 & B5 & B6).
+      eapply Post_compose with (s2 := popS (commit s (3, r)) rest) (m2 := set_m_rx m rest) (ek := [ECpr body]) (newk := [(3, r)]);
+        [rewrite B1; unfold sframe; repeat split; reflexivity | unfold mframe; repeat split; reflexivity | exact B6
+        | constructor; [exact Ok|constructor] | left; split; [reflexivity|rewrite B1; reflexivity] | left; rewrite B1; reflexivity | ].
+      eapply IH; [|exact E3|exact Hp'].
+      unfold PR. rewrite B1 at 3 4 5 6 7 8 9. cbn [pr set_bf used_features proc_timeout deferred st].
+      repeat split; try assumption; try reflexivity; try congruence. rewrite B3. cbn. congruence.
+    + (* KPhyReq *)
+      cbn beta iota zeta in Hs. unfold commit_ctrl in Hs. change GenLL.ll_control_pdu_code with 3 in Hs. change GenLL.LL_PHY_RSP with 23 in Hs.
+      fold (popS (commit s (3, [23; 3; 3])) rest) in Hs.
+      destruct (handle_received_data fuel c (popS (commit s (3, [23; 3; 3])) rest)) as [[s3 it3] r3] eqn:E3. inversion Hs; subst; clear Hs.
+      destruct (after_commit s (3, [23; 3; 3]) rest P10 P11) as (B1 & B2 & B3 & B4 & B5 & B6).
+      eapply Post_compose with (s2 := popS (commit s (3, [23; 3; 3])) rest) (m2 := set_m_rx m rest) (ek := [EExact [23; 3; 3]]) (newk := [(3, [23; 3; 3])]);
+        [rewrite B1; unfold sframe; repeat split; reflexivity | unfold mframe; repeat split; reflexivity | exact B6
+        | constructor; [apply bytes_eqb_refl|constructor] | left; split; [reflexivity|rewrite B1; reflexivity] | left; rewrite B1; reflexivity | ].
+      eapply IH; [|exact E3|exact Hp].
+      unfold PR. rewrite B1 at 3 4 5 6 7 8 9. cbn [pr set_bf used_features proc_timeout deferred st].
+      repeat split; try assumption; try reflexivity; try congruence. rewrite B3. cbn. congruence.
+    + (* KUnknown *)
+      cbn beta iota zeta in Hs. unfold commit_ctrl in Hs. change GenLL.ll_control_pdu_code with 3 in Hs. change GenLL.LL_UNKNOWN_RSP with 7 in Hs.
+      fold (popS (commit s (3, [7; byte body 0])) rest) in Hs.
+      destruct (handle_received_data fuel c (popS (commit s (3, [7; byte body 0])) rest)) as [[s3 it3] r3] eqn:E3. inversion Hs; subst; clear Hs.
+      destruct (after_commit s (3, [7; byte body 0]) rest P10 P11) as (B1 & B2 & B3 & B4 & B5 & B6).
+      eapply Post_compose with (s2 := popS (commit s (3, [7; byte body 0])) rest) (m2 := set_m_rx m rest) (ek := [EExact [7; byte body 0]]) (newk := [(3, [7; byte body 0])]);
+        [rewrite B1; unfold sframe; repeat split; reflexivity | unfold mframe; repeat split; reflexivity | exact B6
+        | constructor; [apply bytes_eqb_refl|constructor] | left; split; [reflexivity|rewrite B1; reflexivity] | left; rewrite B1; reflexivity | ].
+      eapply IH; [|exact E3|exact Hp].
+      unfold PR. rewrite B1 at 3 4 5 6 7 8 9. cbn [pr set_bf used_features proc_timeout deferred st].
+      repeat split; try assumption; try reflexivity; try congruence. rewrite B3. cbn. congruence.
+    + (* KIgnore *)
+      cbn beta iota zeta in Hs. fold (popS s rest) in Hs.
+      destruct (handle_received_data fuel c (popS s rest)) as [[s3 it3] r3] eqn:E3. inversion Hs; subst; clear Hs.
+      destruct (after_nocommit s rest P10 P11) as (A1 & A2 & A3 & A4 & A5 & A6).
+      eapply Post_compose with (s2 := popS s rest) (m2 := set_m_rx m rest) (ek := []) (newk := []);
+        [unfold sframe; repeat split; reflexivity | unfold mframe; repeat split; reflexivity | rewrite app_nil_r; exact A6 | constructor
+        | left; split; reflexivity | left; reflexivity | ].
+      rewrite app_nil_r. eapply IH; [|exact E3|exact Hp].
+      unfold PR. repeat split; try assumption; try reflexivity; try (rewrite ?A3; cbn; congruence).
+
+Qed.
+End Sim.
+
+(* ========================================================================================== no ITx outside the radio's part *)
+Lemma notx_app a b : forallb notx (a ++ b) = forallb notx a && forallb notx b.
+Proof. apply forallb_app. Qed.
+
+Lemma hlc_notx c s body : forallb notx (snd (fst (handle_ll_control c s body))) = true.
+Proof.
+  unfold handle_ll_control. destruct (ctrl_kind c _ _ _); cbn [fst snd];
+    try (unfold handle_cpr; destruct (negb (cpr_params_ok body)); [|destruct (c_cpr c); [| |destruct (_ && _ && _ && _)]]);
+    repeat match goal with |- context [if ?b then _ else _] => destruct b end; reflexivity.
+Qed.
+
+Lemma hrd_notx c : forall fuel s, forallb notx (snd (fst (handle_received_data fuel c s))) = true.
+Proof.
+  induction fuel as [|fuel IH]; intros s; cbn [handle_received_data]; [reflexivity|].
+  destruct (deferred s); [reflexivity|]. destruct (rxq (bf s)) as [|[llid body] rest]; [reflexivity|].
+  destruct (llid =? _).
+  - destruct (tx_buffer_available s); [|reflexivity].
+    pose proof (hlc_notx c s body) as X. destruct (handle_ll_control c s body) as [[s1 it] r]. cbn [fst snd] in X.
+    destruct r; [|exact X].
+    specialize (IH (upd_bf s1 (fun b => set_rxq b rest))). destruct (handle_received_data fuel c _) as [[s3 it3] r3]. cbn [fst snd] in *.
+    rewrite notx_app, X, IH. reflexivity.
+  - destruct (_ && _); [|reflexivity]. destruct (if c_enc c then _ else _) as [|r]; [apply IH|].
+    destruct (tx_buffer_available s); [apply IH|reflexivity].
+Qed.
+
+Lemma fd_notx c s : forallb notx (snd (force_disconnect c s)) = true.
+Proof.
+  unfold force_disconnect, reset_encryption, reset_phy. destruct (c_enc c); destruct (c_phy c); destruct (st _); reflexivity.
+Qed.
+
+Lemma pts_notx c s s' it : pending_then_setup c s = Some (s', it) -> forallb notx it = true.
+Proof.
+  unfold pending_then_setup. intros H.
+  destruct (handle_pending_ll_control c s) as [[[s1 it1] res]|] eqn:E; cbn [obind] in H; [|discriminate].
+  assert (N1 : forallb notx it1 = true).
+  { unfold handle_pending_ll_control in E. destruct (deferred s); [|inversion E; reflexivity].
+    destruct (_ =? _); [|inversion E; reflexivity]. destruct (_ =? GenLL.LL_CHANNEL_MAP_REQ).
+    - destruct (ChanMapModel.reset_impl _ _ _). inversion E. reflexivity.
+    - destruct (_ =? GenLL.LL_CONNECTION_UPDATE_IND); [|inversion E; reflexivity].
+      destruct (parse_update l) as [t ok]. destruct ok as [[|]|]; inversion E; reflexivity. }
+  destruct res.
+  - destruct (setup_next_connection_event s1) as [[s2 it2]|] eqn:E2; cbn [obind] in H; [|discriminate].
+    apply setup_next_frame in E2. destruct E2 as [_ (ch & ws & we & ->)]. inversion H. rewrite notx_app, N1. reflexivity.
+  - pose proof (fd_notx c s1) as F. destruct (force_disconnect c s1) as [s2 it2]. inversion H. rewrite notx_app, N1. exact F.
+Qed.
+
+Lemma flush_notx s : forallb notx (snd (flush_events s)) = true.
+Proof. cbn [flush_events snd]. induction (ring s); [reflexivity|exact IHl]. Qed.
+
+Lemma continue_notx c s e s' it : end_event_continue c s e = Some (s', it) -> forallb notx it = true.
+Proof.
+  unfold end_event_continue, force_disconnect_reason. intros H. destruct (procedure_timed_out s).
+  - inversion H. pose proof (fd_notx c (set_disc_reason s GenLL.connection_ll_response_timeout)) as F.
+    destruct (force_disconnect c _) as [s5 it5]. inversion H1; subst. exact F.
+  - assert (N6 : forall x, forallb notx (snd (transmit_pending_security_pdus c x)) = true).
+    { intros x. unfold transmit_pending_security_pdus. destruct (_ && _ && _); [destruct (has_key _)|]; reflexivity. }
+    match type of H with context [transmit_pending_security_pdus c ?X] => specialize (N6 X); destruct (transmit_pending_security_pdus c X) as [s6 it6] end.
+    cbn [snd] in N6.
+    destruct (plan_next_connection_event c s6 _) as [s7|]; cbn [obind] in H; [|discriminate].
+    destruct (pending_then_setup c s7) as [[s8 it8]|] eqn:E8; cbn [obind] in H; [|discriminate].
+    apply pts_notx in E8. inversion H. rewrite notx_app, N6, E8. reflexivity.
+Qed.
+
+Lemma end_event_notx c s e s' it : do_end_event c s e = Some (s', it) -> forallb notx it = true.
+Proof.
+  unfold do_end_event. intros H.
+  destruct (end_event_body c (end_event_prologue c s) e) as [[s9 it9]|] eqn:E; cbn [obind] in H; [|discriminate].
+  inversion H as [[Hq H0]]. clear H. rewrite notx_app.
+  assert (FN : forall l, forallb notx (map ICb l) = true) by (induction l; [reflexivity|assumption]).
+  rewrite FN, andb_true_r.
+  unfold end_event_body in E. destruct (_ && _ && _).
+  - inversion E. pose proof (fd_notx c (end_event_prologue c s)) as F. destruct (force_disconnect c _) as [sa ia]. inversion E; subst. exact F.
+  - pose proof (hrd_notx c (S (length (rxq (bf (end_event_prologue c s))))) (end_event_prologue c s)) as X.
+    destruct (handle_received_data _ c _) as [[s3 it3] res]. cbn [fst snd] in X. destruct res.
+    + destruct (end_event_continue c (send_control_pdus s3) e) as [[s8 it8]|] eqn:E8; cbn [obind] in E; [|discriminate].
+      apply continue_notx in E8. inversion E. rewrite notx_app, X, E8. reflexivity.
+    + pose proof (fd_notx c s3) as F. destruct (force_disconnect c s3) as [s4 it4]. inversion E. rewrite notx_app, X. exact F.
+Qed.
+
+(* ========================================================================================== delivered PDUs *)
+Lemma deliver_ok pdus : forallb pdu_ok27 pdus = true -> rx_ok (deliver pdus).
+Proof.
+  unfold deliver, rx_ok. induction pdus as [|[llid body] pdus IH]; intros H; [constructor|].
+  cbn [forallb] in H. apply andb_prop in H. destruct H as [H1 H2]. cbn [map filter fst snd].
+  destruct (negb (N.of_nat (length body) =? 0) && negb (N.land (N.land llid 3) 3 =? 0)) eqn:E; [|apply IH; exact H2].
+  constructor; [|apply IH; exact H2]. cbn [fst snd].
+  unfold pdu_ok27 in H1. cbn [fst snd] in H1. apply andb_prop in H1. destruct H1 as [Hb Hf].
+  replace (N.land (N.land llid 3) 3) with (N.land llid 3) in E by (rewrite <- N.land_assoc; reflexivity).
+  assert (L : N.land llid 3 < 4) by (change 3 with (N.ones 2); rewrite N.land_ones; apply N.mod_lt; discriminate).
+  split; [|split].
+  - destruct (N.of_nat (length body) =? 0) eqn:E0; [discriminate E|]. cbn [negb andb] in *. lia.
+  - destruct body; [discriminate E|discriminate].
+  - unfold bytes_ok. rewrite Forall_forall. rewrite forallb_forall in Hb. intros x Hx. specialize (Hb x Hx). lia.
+Qed.
+
+(* ========================================================================================== the coupling between operations *)
+Definition own_ok (s : lstate_t) (m : mon27) : Prop :=
+  m_cpr m = (if cpr_pending (pr s)
+             then Some (prop_min (pr s) mod 65536, prop_max (pr s) mod 65536, prop_lat (pr s) mod 65536, prop_to (pr s) mod 65536)
+             else None)
+  /\ phy_pending (pr s) = false /\ m_phy m = None /\ ver_pending (pr s) = false /\ m_ver m = false /\ m_acpr m = None.
+
+Definition Tight (c : cfg) (s : lstate_t) (m : mon27) : Prop :=
+  m_conn m = true /\ m_stop m = false /\ PR c s m /\ own_ok s m
+  /\ (st s = Connecting \/ st s = Connected)
+  /\ Matches c (m_exp m) (ctrl (unaired s))
+  /\ (m_ver_sent m = true -> nver (m_exp m) = 0%nat) /\ (nver (m_exp m) <= 1)%nat
+  /\ (ver_received (pr s) = false -> nver (m_exp m) = 0%nat)
+  /\ (st s = Connected -> tw_size (tm s) = 0 /\ m_t m = tsle (cs s))
+  /\ (st s = Connecting -> proc_timeout s = 0)
+  /\ disc_reason s = 8 /\ ring s = [] /\ enc_prog (sc s) = false.
+
+Definition Loose (m : mon27) : Prop := m_conn m = false \/ m_stop m = true.
+
+Definition G (c : cfg) (s : lstate_t) (m : mon27) : Prop :=
+  m_txa m = txa s /\ LLProofsC21.Inv c s /\ exists m28, LLProofsC28.R c s m28 /\ LLProofsC28Air.TB c s m28.
+
+Definition Sim (c : cfg) (s : lstate_t) (m : mon27) : Prop := G c s m /\ (Loose m \/ Tight c s m).
+
+(* the window of a scheduled event is symmetric about the anchor when there is no transmit window *)
+Lemma setup_next_mid s s' it :
+  setup_next_connection_event s = Some (s', it) -> tw_size (tm s) = 0 ->
+  exists ch ws we, it = [ICe ch ws we (interval (tm s))] /\ (ws + we) / 2 = tsle (cs s).
+Proof.
+  unfold setup_next_connection_event. intros H Z. rewrite Z in H. cbn [N.eqb negb] in H.
+  destruct (dt_sub _ _) as [ws|] eqn:E1; cbn [obind] in H; [|discriminate].
+  destruct (dt_add _ _) as [we|] eqn:E2; cbn [obind] in H; [|discriminate].
+  apply dt_sub_exact in E1. apply dt_add_exact in E2. inversion H. do 3 eexists. split; [reflexivity|].
+  destruct E1 as [E1 E1']. subst ws we. nlia.
+Qed.
+
+Lemma has_adv_app a b : has_adv (a ++ b) = has_adv a || has_adv b.
+Proof. unfold has_adv. apply existsb_app. Qed.
+Lemma has_adv_air l : has_adv (map LLProofsC28Air.air_item l) = false.
+Proof. induction l; [reflexivity|exact IHl]. Qed.
+Lemma has_adv_cbs l : has_adv (map ICb l) = false.
+Proof. induction l; [reflexivity|exact IHl]. Qed.
+Lemma fd_has_adv c s : has_adv (snd (force_disconnect c s)) = true.
+Proof.
+  unfold force_disconnect, reset_encryption, reset_phy. destruct (c_enc c); destruct (c_phy c); destruct (st _); reflexivity.
+Qed.
+
+Lemma process27_txa c : forall fuel m cbs acc, m_txa (fst (fst (process27 fuel c m cbs acc))) = m_txa m.
+Proof.
+  induction fuel as [|fuel IH]; intros m cbs acc; cbn [process27]; [reflexivity|].
+  destruct (m_rx m) as [|[llid body] rest]; [reflexivity|].
+  destruct (llid =? 3).
+  - destruct (negb (m_txa m)); [reflexivity|].
+    destruct (spec_kind _ _ _ _ _); try reflexivity; try (rewrite IH; reflexivity).
+    + rewrite IH. destruct (_ <=? _); reflexivity.
+    + rewrite IH. destruct (_ || _ || _); destruct (_ && _); reflexivity.
+    + rewrite IH. destruct (_ || _ || _); destruct (_ && _); reflexivity.
+    + rewrite IH. destruct (_ || _ || _); destruct (_ && _); reflexivity.
+    + destruct (c_cpr c); try (rewrite IH; reflexivity).
+      destruct cbs as [|[[[a b] l] t] cbs']; [rewrite IH; reflexivity|]. destruct (_ && _ && _ && _ && _); rewrite IH; reflexivity.
+  - destruct (llid =? 2); [|rewrite IH; reflexivity].
+    destruct (l2cap_reply body); [rewrite IH; reflexivity|]. destruct (m_txa m) eqn:ET; [rewrite IH; cbn; exact ET|cbn; exact ET].
+Qed.
+
+Lemma own_pdu_txa m e m' : own_pdu m = Some (e, m') -> m_txa m' = m_txa m.
+Proof.
+  unfold own_pdu. destruct (m_cpr m) as [[[[a b] l] t]|]; [intros H; inversion H; reflexivity|].
+  destruct (m_phy m) as [[t r]|]; [intros H; inversion H; destruct (m_timer m =? 0); reflexivity|].
+  destruct (m_ver m); [intros H; inversion H; reflexivity|].
+  destruct (m_acpr m); intros H; inversion H; reflexivity.
+Qed.
+Lemma with_t_txa m it : m_txa (with_t m it) = m_txa m.
+Proof. unfold with_t. destruct (last_ce it) as [[a b]|]; reflexivity. Qed.
+
+Lemma mstep27_txa c m o r m' : mstep27 c m o r = (Ok, m') ->
+  m_txa m' = match o, r with TxAvail b, OItems _ => b | _, _ => m_txa m end.
+Proof.
+  unfold mstep27. destruct r as [it| | |]; try (intros H; inversion H; destruct o; reflexivity).
+  destruct o; try (intros H; inversion H; reflexivity);
+    try (destruct (negb (m_conn m)); [intros H; inversion H; reflexivity|];
+         destruct (m_stop m); [intros H; inversion H; destruct (has_adv it); reflexivity|]);
+    try (intros H; inversion H; reflexivity).
+  - (* Adv *) destruct (existsb _ it); intros H; inversion H; [rewrite with_t_txa|]; reflexivity.
+  - (* Ev *)
+    destruct (judge_air c (m_exp m) (tx3 it) (m_ver_sent m)) as [[t|] vs]; [discriminate|].
+    match goal with |- context [process27 ?f c ?M ?cb ?ac] => pose proof (process27_txa c f M cb ac) as PT; destruct (process27 f c M cb ac) as [[m2 due] res] end.
+    cbn [fst] in PT. cbn [m_txa set_m_ver_sent set_m_exp set_m_rx] in PT.
+    destruct res.
+    + destruct (has_adv it).
+      * destruct (_ && _); [intros H; inversion H; exact PT|]. destruct (has_closed it 34); [discriminate|intros H; inversion H; exact PT].
+      * destruct (_ && _); [discriminate|].
+        set (m3 := if m_timer m2 =? 0 then m2 else set_m_timer m2 (m_timer m2 - m_t m2)).
+        assert (T3 : m_txa m3 = m_txa m2) by (subst m3; destruct (_ =? 0); reflexivity).
+        destruct (m_txa m3) eqn:E3.
+        -- destruct (own_pdu m3) as [[e m4]|] eqn:EO; intros H; inversion H; rewrite with_t_txa; cbn [m_txa set_m_exp];
+             [rewrite (own_pdu_txa _ _ _ EO)|]; congruence.
+        -- intros H; inversion H. rewrite with_t_txa. cbn [m_txa set_m_exp]. congruence.
+    + intros H; inversion H. destruct (has_adv it); exact PT.
+    + intros H; inversion H. exact PT.
+  - (* Timeout *) destruct (has_adv it).
+    + destruct (_ && _); [discriminate|intros H; inversion H; reflexivity].
+    + destruct (_ && _); [discriminate|intros H; inversion H; apply with_t_txa].
+  - (* Cpu *) destruct it as [|[] [|? ?]]; try (intros H; inversion H; reflexivity); try (match goal with x : bool |- _ => destruct x end; intros H; inversion H; reflexivity).
+  - (* Cpr *) destruct it as [|[] [|? ?]]; try (intros H; inversion H; reflexivity); try (match goal with x : bool |- _ => destruct x end; intros H; inversion H; reflexivity).
+  - (* PhyReq *) destruct it as [|[] [|? ?]]; try (intros H; inversion H; reflexivity); try (match goal with x : bool |- _ => destruct x end; intros H; inversion H; reflexivity).
+  - (* VerReq *) destruct it as [|[] [|? ?]]; try (intros H; inversion H; reflexivity); try (match goal with x : bool |- _ => destruct x end; intros H; inversion H; reflexivity).
+Qed.
+
+Lemma op_ok27_21 o : op_ok27 o = true -> LLProofsC21.op_ok o.
+Proof.
+  destruct o; try exact (fun _ => I). intros H. unfold LLProofsC21.op_ok, LLProofsC21.pdus_ok. cbn [op_ok27] in H.
+  apply Forall_forall. rewrite forallb_forall in H.
+  intros p Hp. specialize (H p Hp). unfold pdu_ok27 in H. apply andb_prop in H. destruct H as [H _].
+  unfold bytes_ok. apply Forall_forall. rewrite forallb_forall in H. intros x Hx. specialize (H x Hx). lia.
+Qed.
+
+Lemma G_step c s m o s' r m' :
+  G c s m -> op_ok27 o = true -> lstep c s o = (s', r) -> r <> OCrash -> mstep27 c m o r = (Ok, m') -> G c s' m'.
+Proof.
+  intros (G1 & G2 & m28 & G3 & G4) Ho Hs Hr Hm.
+  destruct (LLProofsC28Air.step_air c s m28 o s' r G3 G4 Hs Hr) as (m28' & _ & R' & T').
+  split; [|split].
+  - rewrite (mstep27_txa c m o r m' Hm).
+    assert (W : wfb_conn s) by (intros I; destruct (G4 I) as [W _]; exact W).
+    pose proof (lstep_txa c s o W) as X. rewrite Hs in X. cbn [fst] in X. rewrite X.
+    destruct o; try exact G1. cbn [lstep] in Hs. inversion Hs. reflexivity.
+  - pose proof (LLProofsC21.lstep_inv c s o G2 (op_ok27_21 o Ho)) as X. rewrite Hs in X. exact X.
+  - exists m28'. split; assumption.
+Qed.
+
+Lemma Loose_step c m o r : Loose m -> r <> OCrash ->
+  (forall it, r = OItems it -> match o with Adv _ _ => existsb (fun i => match i with ICe _ _ _ _ => true | _ => false end) it = false | _ => True end) ->
+  exists m', mstep27 c m o r = (Ok, m') /\ Loose m'.
+Proof.
+  intros L Hr Hadv. unfold mstep27. destruct r as [it| | |]; [|exists m; auto|exists m; auto|congruence].
+  specialize (Hadv it eq_refl).
+  destruct o; try (eexists; split; [reflexivity|exact L]);
+    try (destruct L as [L|L]; [rewrite L; cbn [negb]; eexists; split; [reflexivity|left; exact L]
+                              | destruct (negb (m_conn m)) eqn:EC; [eexists; split; [reflexivity|right; exact L]|];
+                                rewrite L; eexists; split; [reflexivity|]; destruct (has_adv it); [left; reflexivity|right; exact L]]).
+  rewrite Hadv. eexists; split; [reflexivity|exact L].
+Qed.
+
+(* ========================================================================================== a new connection *)
+Definition isce (i : item) : bool := match i with ICe _ _ _ _ => true | _ => false end.
+
+Lemma adv_tight c s m hdr0 body s' it :
+  G c s m -> st s = Advertising -> do_adv_received c s hdr0 body = Some (s', it) ->
+  (existsb isce it = false) \/ (existsb isce it = true /\ Tight c s' (with_t (new_connection27 c m) it)).
+Proof.
+  intros (G1 & G2 & m28 & G3 & G4) Hst H. unfold do_adv_received in H.
+  destruct (valid_connect_request c hdr0 body); [|inversion H; left; reflexivity].
+  destruct (ChanMapModel.reset_impl _ _ _) as [ch r]. destruct r as [[|]| | | |]; try discriminate; [|inversion H; left; reflexivity].
+  destruct (parse_connect body) as [t ok]. destruct ok as [[|]|]; try discriminate; [|inversion H; left; reflexivity].
+  match type of H with (do r11 <- setup_next_connection_event ?X; _) = _ => set (s10 := X) in *; destruct (setup_next_connection_event s10) as [[s11 it11]|] eqn:E end;
+    cbn [obind] in H; [|discriminate].
+  apply setup_next_frame in E. destruct E as [E11 (chn & ws & we & Eit)].
+  set (s12 := upd_sc s11 (fun x => set_is_enc x false)) in *.
+  destruct (push_event_form c s12 (EvRequested (details_of s12))) as [rr Er]. rewrite Er in H.
+  cbn [flush_events] in H. inversion H as [[Hs' Hit]]. clear H.
+  right. rewrite Eit. split; [reflexivity|].
+  assert (NI : in_connection s = false) by (unfold in_connection; rewrite Hst; reflexivity).
+  destruct G2 as (_ & D & _). specialize (D NI).
+  destruct G3 as (_ & _ & _ & _ & SO & _). destruct (SO NI) as [(_ & EP & _) _].
+  unfold Tight, PR, own_ok, with_t.
+  assert (LC : last_ce (IAa (rd32 body 12) (rd24 body 16) :: [ICe chn ws we (interval (tm s10))] ++ map ICb rr) = Some (ws, we)).
+  { apply (last_ce_pick [IAa (rd32 body 12) (rd24 body 16)] chn ws we (interval (tm s10)) (map ICb rr)).
+    clear. induction rr; [reflexivity|assumption]. }
+  cbn [ring set_ring] in *. rewrite LC.
+  subst s12 s11 s10. unfold txa in *. unfold WFb, rx_ok, unaired.
+  cbn -[N.div]. rewrite D, EP, G1.
+  repeat split; try reflexivity; try discriminate; try constructor; auto; try (intros F; discriminate F).
+Qed.
+
+(* ========================================================================================== a connection event *)
+Lemma prologue_form c s : st s = Connecting \/ st s = Connected ->
+  exists rr, end_event_prologue c s = set_ring (upd_tm (set_st (set_pending_event s false) Connected) (fun t => set_tw_size t 0)) rr
+             /\ (st s = Connected -> rr = ring s).
+Proof.
+  intros [H|H]; unfold end_event_prologue; cbn [st set_pending_event]; rewrite H.
+  - destruct (push_event_form c (set_pending_event s false) (EvEstablished (details_of (set_pending_event s false)))) as [rr ->].
+    exists rr. split; [change (st (set_ring (set_pending_event s false) rr)) with (st s); rewrite H; reflexivity|congruence].
+  - exists (ring s). split; [|reflexivity]. change (st (set_pending_event s false)) with (st s). rewrite H. cbn [lstate_eqb]. destruct s; reflexivity.
+Qed.
+
+Lemma in_conn_of s : st s = Connecting \/ st s = Connected -> in_connection s = true.
+Proof. unfold in_connection. intros [-> | ->]; reflexivity. Qed.
+
